@@ -3,10 +3,16 @@ Reference model of C15: the gap between consecutive features, written from the p
 Does not import gffutils.
 
 A feature is a dict {seqid, start, end, strand, featuretype, attrs} with attrs = {key: [values...]}.
+A caller may write a value list as a bare string: that is ONE value (values_of), never a sequence of characters.
 """
 import re
 
 NUMBER = re.compile(r"^-?[0-9]+(\.[0-9]+)?$")
+
+
+def values_of(v):
+    """The values an attribute entry stands for: a bare string is one value."""
+    return [v] if isinstance(v, str) else list(v)
 
 
 def is_number(v):
@@ -49,13 +55,13 @@ def gap(prev, nxt, new_featuretype=None, merge_attributes=True, numeric_sort=Fal
         attrs = union_attributes(prev["attrs"], nxt["attrs"], numeric_sort)
         if update_attributes:
             for k, v in update_attributes.items():
-                attrs[k] = list(v)
+                attrs[k] = values_of(v)
         g["attrs"] = attrs
     else:
         # the statement describes the attributes of the union only; with the union switched off
         # only the keys of update_attributes are determined
         g["attrs"] = None
-        g["must_have"] = {k: list(v) for k, v in (update_attributes or {}).items()}
+        g["must_have"] = {k: values_of(v) for k, v in (update_attributes or {}).items()}
     return g
 
 
